@@ -227,28 +227,14 @@ fn interface_name<'a>(input: &mut &'a [u8]) -> ModalResult<&'a str, InputError<&
     if pos >= input.len() || !input[pos].is_ascii_alphabetic() {
         return Err(ErrMode::Backtrack(ParserError::from_input(input)));
     }
-    pos += 1;
-
-    while pos < input.len() && (input[pos].is_ascii_alphanumeric() || input[pos] == b'-') {
-        pos += 1;
-    }
+    pos = interface_name_segment_tail(input, pos + 1);
 
     let mut found_dot = false;
     // Subsequent segments: .[A-Za-z0-9]([-]*[A-Za-z0-9])*
-    while pos < input.len() && input[pos] == b'.' {
+    // A dot only belongs to the name if a segment follows it.
+    while pos + 1 < input.len() && input[pos] == b'.' && input[pos + 1].is_ascii_alphanumeric() {
         found_dot = true;
-        pos += 1; // skip dot
-
-        // Must have at least one alphanumeric after dot
-        if pos >= input.len() || !input[pos].is_ascii_alphanumeric() {
-            break;
-        }
-        pos += 1;
-
-        // Continue with alphanumeric and dashes
-        while pos < input.len() && (input[pos].is_ascii_alphanumeric() || input[pos] == b'-') {
-            pos += 1;
-        }
+        pos = interface_name_segment_tail(input, pos + 2);
     }
 
     // Check for at least one dot
@@ -259,6 +245,22 @@ fn interface_name<'a>(input: &mut &'a [u8]) -> ModalResult<&'a str, InputError<&
     let name_bytes = &start[0..pos];
     *input = &input[pos..];
     Ok(bytes_to_str(name_bytes))
+}
+
+/// The `([-]*[A-Za-z0-9])*` tail of an interface name segment starting at `pos`: dashes only
+/// belong to the name if an alphanumeric character follows them.
+fn interface_name_segment_tail(input: &[u8], mut pos: usize) -> usize {
+    loop {
+        let mut next = pos;
+        while next < input.len() && input[next] == b'-' {
+            next += 1;
+        }
+        if next < input.len() && input[next].is_ascii_alphanumeric() {
+            pos = next + 1;
+        } else {
+            return pos;
+        }
+    }
 }
 
 /// Parse a parameter list: (param1: type1, param2: type2).
